@@ -128,6 +128,11 @@ func provablyNonNilError(v ssa.Value, tested ssa.Value) bool {
 			}
 		}
 	}
+	if ld, ok := v.(*ssa.UnOp); ok && ld.Op == token.MUL {
+		if g, ok := ld.X.(*ssa.Global); ok && globalErrNonNil(g) {
+			return true
+		}
+	}
 	if mi, ok := v.(*ssa.MakeInterface); ok {
 		// a concrete error value (e.g. KeySizeError(k)) boxed into the interface is non-nil
 		_ = mi
@@ -177,4 +182,40 @@ func calleeName(in ssa.Instruction) string {
 
 func isRepoFunc(f *ssa.Function) bool {
 	return f != nil && f.Pkg != nil && strings.HasPrefix(f.Pkg.Pkg.Path(), modPath)
+}
+
+func fieldName(fa *ssa.FieldAddr) string {
+	st, ok := fa.X.Type().Underlying().(*types.Pointer).Elem().Underlying().(*types.Struct)
+	if !ok {
+		return ""
+	}
+	return st.Field(fa.Field).Name()
+}
+
+// globalErrNonNil: a package-level error variable whose only store is `errors.New(...)` in the package initialiser.
+func globalErrNonNil(g *ssa.Global) bool {
+	if g.Pkg == nil {
+		return false
+	}
+	n, good := 0, true
+	for _, m := range g.Pkg.Members {
+		fn, ok := m.(*ssa.Function)
+		if !ok {
+			continue
+		}
+		for _, b := range fn.Blocks {
+			for _, in := range b.Instrs {
+				st, ok := in.(*ssa.Store)
+				if !ok || st.Addr != ssa.Value(g) {
+					continue
+				}
+				n++
+				call, isCall := st.Val.(*ssa.Call)
+				if fn.Name() != "init" || !isCall || call.Call.StaticCallee() == nil || call.Call.StaticCallee().String() != "errors.New" {
+					good = false
+				}
+			}
+		}
+	}
+	return n == 1 && good
 }
